@@ -4,6 +4,7 @@ use vstd::prelude::*;
 use std::collections::HashMap;
 use std::ops::Div;
 use vstd::std_specs::hash::*;
+use vstd::std_specs::iter::IteratorSpec;
 verus! {
 //@include common/prelude.vrs
 //@include common/pbf_blob.vrs
@@ -35,6 +36,28 @@ impl Blob {
 	pub fn read_range(&self, range: &ByteRange) -> (r: Result<Blob, VErr>)
 		ensures r is Ok <==> range.offset + range.length <= self@.len(), r is Ok ==> r.unwrap()@ == self@.subrange(range.offset as int, range.offset + range.length)
 	{ unimplemented!() }
+}
+// record i of a written index decodes to block b, for some i < n
+pub open spec fn listed(bytes: Seq<u8>, n: int, b: BlockDefinition) -> bool {
+	exists|i: int| 0 <= i < n && #[trigger] decode_block(bytes.subrange(33 * i, 33 * i + 33)) == Some(b)
+}
+// BlockDefinition::as_blob: Ok gives the 33-byte record that from_blob decodes to the same block
+// (proved for the real bodies by the complete Kani harness versatiles_codec::block_definition_roundtrip_and_layout)
+#[verifier::external_body]
+pub fn block_as_blob(b: &BlockDefinition) -> (r: Result<Blob, VErr>)
+	ensures r is Ok ==> r.unwrap()@.len() == 33 && decode_block(r.unwrap()@) == Some(*b)
+{ unimplemented!() }
+// R6 stand-in for ValueWriterBlob (io::Cursor<Vec<u8>>); ValueWriter::write_blob is under contract in unit vector_tile_feature
+pub struct ValueWriterBlob { pub buf: Vec<u8> }
+impl ValueWriterBlob {
+	pub fn new_be() -> (r: ValueWriterBlob) ensures r.buf@ == Seq::<u8>::empty() { ValueWriterBlob { buf: Vec::new() } }
+	#[verifier::external_body]
+	pub fn write_blob(&mut self, blob: &Blob) -> (r: Result<(), VErr>)
+		ensures r is Ok ==> final(self).buf@ == old(self).buf@ + blob@,
+			// (a consequence of the line above, stated so that callers need not name the blob)
+			r is Ok ==> final(self).buf@.subrange(old(self).buf@.len() as int, final(self).buf@.len() as int) == blob@
+	{ unimplemented!() }
+	pub fn into_blob(self) -> (r: Blob) ensures r@ == self.buf@ { Blob::from_vec(self.buf) }
 }
 //@extract const file="versatiles_container/src/container/versatiles/types/block_index.rs" name="BLOCK_INDEX_LENGTH"
 //@end
@@ -75,6 +98,44 @@ impl BlockIndex {
 				forall|i: int| 0 <= i < it.index@ ==> block_index.lookup@.contains_key(block_coord(decode_block(#[trigger] buf@.subrange(33 * i, 33 * i + 33)).unwrap())),
 //@loopstart 1
 			proof { assert(i * 33 + 33 <= count * 33) by (nonlinear_arith) requires i < count; }
+//@end
+//@extract fn file="versatiles_container/src/container/versatiles/types/block_index.rs" scope="impl BlockIndex" name="as_blob"
+//@rewrite "block.as_blob()" => "block_as_blob(block)" R7
+//@ret r
+//@spec
+		requires obeys_key_model::<TileCoord3>()
+		// C01: the written index consists of whole 33-byte records, one per listed block, and every listed block is the decoding
+		// of one of them (the order is the map's iteration order, which the format leaves open)
+		ensures r is Ok ==> r.unwrap()@.len() == 33 * self.lookup@.len(),
+			r is Ok ==> forall|k: TileCoord3| self.lookup@.contains_key(k) ==> listed(r.unwrap()@, self.lookup@.len() as int, #[trigger] self.lookup@[k]),
+//@at "for (_coord, block) in self.lookup.iter()"
+		let ghost mut vseq: Seq<(&TileCoord3, &BlockDefinition)> = Seq::empty();
+//@at "Ok(writer.into_blob())"
+		proof {
+			assert forall|k: TileCoord3| self.lookup@.contains_key(k) implies listed(writer.buf@, self.lookup@.len() as int, #[trigger] self.lookup@[k]) by {
+				let j = choose|j: int| 0 <= j < vseq.len() && *(#[trigger] vseq[j]).0 == k;
+				assert(decode_block(writer.buf@.subrange(33 * j, 33 * j + 33)) == Some(*vseq[j].1));
+			}
+		}
+//@loop 1 iter=it
+			invariant obeys_key_model::<TileCoord3>(), it.seq().len() == self.lookup@.len(), vseq.len() == it.index@, forall|i: int| #![trigger vseq[i]] #![trigger it.seq()[i]] 0 <= i < it.index@ ==> vseq[i] == it.seq()[i],
+				forall|i: int| 0 <= i < it.seq().len() ==> self.lookup@.contains_key(*(#[trigger] it.seq()[i]).0) && self.lookup@[*it.seq()[i].0] == *it.seq()[i].1,
+				forall|k: TileCoord3| self.lookup@.contains_key(k) ==> exists|i: int| 0 <= i < it.seq().len() && *(#[trigger] it.seq()[i]).0 == k,
+				writer.buf@.len() == 33 * it.index@,
+				forall|i: int| 0 <= i < it.index@ ==> decode_block(#[trigger] writer.buf@.subrange(33 * i, 33 * i + 33)) == Some(*it.seq()[i].1),
+//@loopstart 1
+			let ghost vpre = writer.buf@;
+//@loopend 1
+			proof {
+				vseq = vseq.push((_coord, block));
+				assert(vpre.len() == 33 * it.index@);
+				assert(writer.buf@.len() == vpre.len() + 33);
+				assert(writer.buf@.subrange(33 * it.index@, 33 * it.index@ + 33) == writer.buf@.subrange(vpre.len() as int, writer.buf@.len() as int));
+				assert(*block == *it.seq()[it.index@ as int].1);
+				assert forall|i: int| 0 <= i < it.index@ implies #[trigger] writer.buf@.subrange(33 * i, 33 * i + 33) == vpre.subrange(33 * i, 33 * i + 33) by {
+					assert(writer.buf@.subrange(33 * i, 33 * i + 33) =~= vpre.subrange(33 * i, 33 * i + 33));
+				}
+			}
 //@end
 }
 } // verus!
